@@ -123,3 +123,28 @@ void h_baa_ref(void) {
   q120_vec_mat1col_product_baa_ref(p, ell, r, x, y);
   VACUITY_CANARY();
 }
+
+// ---- b*b product: range / no-wrap proof for every ell <= 10000 (same shape as a*a above: 4-lane loops unwound before
+// instrumentation, outer loop contract with the bounds s1,s4 <= i*(2^32-1), s2,s3 <= 3*i*(2^32-1); every unsigned + and * of
+// the function carries CBMC's overflow check).  Operands are ANY 64-bit lanes (layout b is lazy).  Table: h from the real
+// constructor (S5), reduced powers below their primes, s1h_pow_red == 2^h.
+#ifndef BBB_H
+#define BBB_H 24
+#endif
+void q120_vec_mat1col_product_bbb_ref(q120_mat1col_product_bbb_precomp* precomp, const uint64_t ell, q120b* const res, const q120b* const x, const q120b* const y);
+#define BBB_TAB_OK(f) (precomp->f[0] < Q1 && precomp->f[1] < Q2 && precomp->f[2] < Q3 && precomp->f[3] < Q4)
+void bbb_ref__c(q120_mat1col_product_bbb_precomp* precomp, const uint64_t ell, q120b* const res, const q120b* const x, const q120b* const y)
+__CPROVER_requires(ell <= MAX_ELL && GK < 4)
+__CPROVER_requires(__CPROVER_is_fresh(precomp, sizeof(*precomp)) && precomp->h == BBB_H)
+__CPROVER_requires(precomp->s1h_pow_red[0] == ((uint64_t)1 << BBB_H) && precomp->s1h_pow_red[1] == ((uint64_t)1 << BBB_H) && precomp->s1h_pow_red[2] == ((uint64_t)1 << BBB_H) && precomp->s1h_pow_red[3] == ((uint64_t)1 << BBB_H))
+__CPROVER_requires(BBB_TAB_OK(s2l_pow_red) && BBB_TAB_OK(s2h_pow_red) && BBB_TAB_OK(s3l_pow_red) && BBB_TAB_OK(s3h_pow_red) && BBB_TAB_OK(s4l_pow_red) && BBB_TAB_OK(s4h_pow_red))
+__CPROVER_requires(__CPROVER_is_fresh(res, 32) && __CPROVER_is_fresh(x, ell * 32) && __CPROVER_is_fresh(y, ell * 32))
+__CPROVER_assigns(__CPROVER_object_upto(res, 32))
+__CPROVER_ensures(ell == 0 ==> ((const uint64_t*)res)[GK] == 0) /*@bbb_empty_product_is_zero:C10*/
+;
+void h_bbb_ref(void) {
+  q120_mat1col_product_bbb_precomp* p; uint64_t ell; q120b* r; const q120b *x, *y;
+  GK = nondet_u64();
+  q120_vec_mat1col_product_bbb_ref(p, ell, r, x, y);
+  VACUITY_CANARY();
+}
